@@ -227,10 +227,10 @@ def run_tr(which,repo,seed,tier):
   t0=time.time(); parts=[]
   if which=='C12':
     parts=[('portmap',trcheck.check_portmap)]
-    bound="flat port map of YosysTranslationPass on a design with two struct-typed input and output ports (nested struct, 2-D lists of Bits, list inside a nested struct) and a 2x3 port array: every flattened leaf is connected to exactly the bit range that the real to_bits gives it (one leaf set to all ones at a time); array elements to their flattened ports"
+    bound="flat port map of YosysTranslationPass on a design with two struct-typed input and output ports (nested struct, 2-D lists of Bits, list inside a nested struct) and a 2x3 port array: every flattened leaf is connected to exactly the bit range that the real to_bits gives it (one leaf set to all ones at a time); array elements to their flattened ports; for every grouping wire of the text (struct/array ports, a 3-element interface array with 1-D and 2-D port arrays inside) every element is connected exactly once, inside the declared dimensions, to the flattened port whose name spells the same path"
   else:
-    parts=[('names',trcheck.check_names),('determinism',trcheck.check_determinism)]
-    bound="module names of 5 instances of parametrised components (defaults overridden partially, a negative parameter) are legal identifiers and coincide only for equal class and construct arguments; SystemVerilog and Yosys translation of 3 designs (two nested struct types in one struct, parametrised children, struct/array ports) in fresh processes with PYTHONHASHSEED 0,1,2,3,17 is byte-identical up to comment lines; every module defined once; every instantiated module defined"
+    parts=[('names',trcheck.check_names),('instances',trcheck.check_instances),('determinism',trcheck.check_determinism)]
+    bound="module names of 5 instances of parametrised components (defaults overridden partially, a negative parameter) are legal identifiers and coincide only for equal class and construct arguments; in the SystemVerilog and Yosys text every sub-component instance (incl. a list of same-class components with different parameters) instantiates the module of that very component; SystemVerilog and Yosys translation of 5 designs (two nested struct types in one struct, parametrised children, struct/array ports, four siblings that each use a struct type internally only, component lists) in fresh processes with PYTHONHASHSEED 0,1,2,3,17 is byte-identical up to comment lines; every module defined once; every instantiated module defined"
   fails=[]; n=0
   for nm,f in parts:
     try: r=f(repo)
